@@ -8,16 +8,17 @@ ids = sys.argv[1:] or sorted(d for d in os.listdir(root) if os.path.isdir(os.pat
 resp = os.path.join(root, "RESULTS.json")
 res = json.load(open(resp)) if os.path.exists(resp) else {}
 for sid in ids:
+    if not sys.argv[1:] and sid in res and "error" not in res[sid]:
+        continue          # resume: already swept
     pid = sid.split("-")[0]
     patch = os.path.join(root, sid, "patch.diff")
     st = subprocess.run(["git", "-C", "/repo", "status", "--porcelain"], capture_output=True, text=True).stdout.strip()
     if st:
         print("REFUSING: /repo is not clean:\n" + st); sys.exit(2)
-    ap = subprocess.run(["git", "-C", "/repo", "apply", "--3way", patch], capture_output=True, text=True)
+    ap = subprocess.run(["git", "-C", "/repo", "apply", patch], capture_output=True, text=True)
     if ap.returncode != 0:
         res[sid] = {"error": "patch does not apply: " + ap.stderr[-300:]}
-        subprocess.run(["git", "-C", "/repo", "checkout", "--", "."]); subprocess.run(["git", "-C", "/repo", "reset", "-q"]); continue
-    subprocess.run(["git", "-C", "/repo", "reset", "-q"])
+        subprocess.run(["git", "-C", "/repo", "reset", "-q", "--hard", "HEAD"]); continue
     out = {}
     try:
         for c in [pid] + EXTRA.get(sid, []):
